@@ -28,6 +28,7 @@ RULE = ("fault enumeration: histories over {P protect request, A(n) accept genui
         "and every mode (before / after / half-written) one run with the process dying there, then reload and continue; plus "
         "exhaustion histories starting at 2^40-3..2^40-1 and histories across the numbers 2^8, 2^16, 2^24, 2^32, 0x1300. distinct = distinct (history, crash point)")
 ASSUMPTIONS = [
+    "every operation runs inside a running event loop (as the transports use a context); work handed to the loop's executor runs at the start of the next operation at the latest, and is lost if the process dies first",
     "crash = process death: completed file-system operations persist, nothing else does (power loss / un-fsynced directory entries are not modelled)",
     "file-system errors (ENOSPC etc.) are not injected",
     "stand-in cbor2 / cryptography / filelock modules as for C11 (filelock: held per process, released by process death)",
@@ -154,6 +155,31 @@ class Run:
         self.unclean = False      # a crash happened after a request was accepted since the last clean store
         self.accepted_since_clean = False
         self.trace = []
+        self.deferred = []        # work handed to the loop's executor and not yet run
+        run = self
+
+        class _Loop:
+            """What asyncio.get_running_loop() returns during an operation: enough of a loop to hand work to."""
+
+            def run_in_executor(self, executor, fn, *a):
+                run.deferred.append((fn, a))
+                import concurrent.futures
+                return concurrent.futures.Future()
+
+            def call_soon(self, fn, *a, **k):
+                run.deferred.append((fn, a))
+
+            call_soon_threadsafe = call_soon
+
+            def time(self):
+                return 0.0
+
+            def is_closed(self):
+                return False
+
+            def get_debug(self):
+                return False
+        self.loop = _Loop()
         self.fresh_n = 6          # numbers the peer uses for requests / responses it generates afresh (above 0, 1, 5)
         self.floor = -1           # highest peer number the window was legitimately re-initialised at
         try:
@@ -192,6 +218,9 @@ class Run:
             c.lockfile = None
         self.ctx = None
         filelock._process_died()
+        if self.deferred:
+            self.trace.append("   (%d executor job(s) die with the process)" % len(self.deferred))
+        del self.deferred[:]
         if self.accepted_since_clean:
             self.unclean = True
         self.trace.append("-- process died; effects so far: %s" % self.fs.log[-6:])
@@ -204,6 +233,28 @@ class Run:
         return int.from_bytes(v[1:1 + n], "big") if n else None
 
     def op(self, op):
+        """Every operation runs the way the transports use a context: from inside a running event loop.  Work that the library hands
+        to the loop's executor does not run at once: it runs at the start of the next operation at the latest (flush) - unless the
+        process dies first, which drops it."""
+        from asyncio import events
+        prev = events._get_running_loop()
+        events._set_running_loop(None)
+        events._set_running_loop(self.loop)
+        try:
+            self.flush()
+            return self._op(op)
+        finally:
+            events._set_running_loop(None)
+            if prev is not None:
+                events._set_running_loop(prev)
+
+    def flush(self):
+        while self.deferred:
+            fn, a = self.deferred.pop(0)
+            self.trace.append("   (executor job runs)")
+            fn(*a)
+
+    def _op(self, op):
         c = self.ctx
         self.trace.append("op %r" % (op,))
         if op[0] == "P":
